@@ -151,6 +151,19 @@ fn main() {
                     let j = if i < nb && r.chance(3, 4) { i } else { r.below(nb) };
                     p.push((offs[ta] + i, offs[tb] + j));
                 }
+                // pairs inside ONE tree: a node with itself, with its parent, and every node with its only child (both orders):
+                // the comparison functions take any two nodes, also an ancestor and its descendant
+                let pos = |n: Node| all.iter().position(|x| *x == n).unwrap();
+                let mut inside = 0;
+                for (i, n) in all.iter().enumerate() {
+                    let kids: Vec<Node> = xot.children(*n).collect();
+                    if kids.len() == 1 && inside < 6 { p.push((i, pos(kids[0]))); p.push((pos(kids[0]), i)); inside += 1; }
+                }
+                for _ in 0..3 {
+                    let i = r.below(all.len());
+                    p.push((i, i));
+                    if let Some(par) = xot.parent(all[i]) { p.push((i, pos(par))); p.push((pos(par), i)); }
+                }
                 p
             }
         };
